@@ -6,7 +6,7 @@ CHECK = {
     "srcs": ["src/diagnostics/CheckupReliability.cpp", "src/diagnostics/Diagnostic.cpp",
              "src/diagnostics/DiagnosticReport.cpp", "src/diagnostics/DiagnosticStatus.cpp"],
     "flavours": ["asan"],
-    "quick": {"shards": 4, "timeout": 600},
+    "quick": {"shards": 8, "timeout": 600},
     "thorough": {"shards": 16, "timeout": 3600},
     "required_categories": [
         "algebra_exhaustive",
